@@ -148,6 +148,7 @@ def run_property(pid, tier, seed, repo='/repo', only_deductive=False, timeout=No
     timeout = timeout or (20 if tier == 'quick' else 90)
     interp.clear_modules()
     ctx = verify.new_ctx(repo)
+    ctx.trace_mode = bool(P.get('trace_mode'))
     cmods = []
     for m in P['contracts']:
         mod = importlib.import_module(m)
